@@ -279,10 +279,7 @@ def run(ck, c10, Event, flood, labels, have_driver):
             k = len(S.log)
 
             def shrink(bad, d, S=S, k=k):
-                def judge(st, args):
-                    c = st["call"]
-                    return R.verdict(c["route"], st["scalars"].get("pulsetime", 5), args[0])[2]
-                steps, ok = TX.minimise_session(S.log[:k], Event, TX.generic_call(R.ql), judge, head(bad))
+                steps, ok = TX.minimise_session(S.log[:k], "harness.c10_hist", head(bad))
                 return bad, TX.session_replay(steps, ok)
             bad = R.call("session", route, pp, objs, replay=lambda S=S, k=k: S.replay(k), shrink=shrink)
             S.results.append(R.last)
@@ -351,7 +348,19 @@ def replay_main(path):
     return 1 if bad not in (None, "skip") else 0
 
 
+def session_judge(Event):
+    from . import c10
+    from aw_transform.flood import flood
+    R = Runner(common.Check("C10", ["quick"]), c10, Event, flood, common.Labels(), False)
+
+    def judge(st, args):
+        return R.verdict(st["call"]["route"], st["scalars"].get("pulsetime", 5), args[0])[2]
+    return judge
+
+
 if __name__ == "__main__":
     if len(sys.argv) >= 3 and sys.argv[1] == "replay":
         sys.exit(replay_main(sys.argv[2]))
+    if len(sys.argv) >= 3 and sys.argv[1] == "judge":
+        sys.exit(TX.judge_main(sys.argv[2], session_judge))
     print(__doc__)
